@@ -24,6 +24,99 @@ TEXT_CLAUSES = ("post.wf", "safety.raise", "unsupported", "cover")
 TEXT = ["standard", "sqlite", "athena", "odata"]
 
 
+LOOKUP_WANT = {"sa_core": "getitem(getattr(<table>(), 'c'), SStr(<term:s(f_name)>))"}
+LOOKUP_KNOWN_ORM = "getattr(<root model>(), SStr(<term:s(f_name)>))"
+LOOKUP_REPLAY = r'''
+import json
+import sqlalchemy as sa
+from sqlalchemy.orm import declarative_base
+from odata_query import exceptions
+from odata_query.grammar import ODataLexer, ODataParser
+from odata_query.sqlalchemy.orm import AstToSqlAlchemyOrmVisitor
+from odata_query.sqlalchemy.core import AstToSqlAlchemyCoreVisitor
+Base = declarative_base()
+
+
+class Post(Base):
+    __tablename__ = "post"
+    id = sa.Column(sa.Integer, primary_key=True)
+    title = sa.Column(sa.String)
+
+
+bkey = __BKEY__
+V, arg = (AstToSqlAlchemyOrmVisitor, Post) if bkey == "sa_orm" else (AstToSqlAlchemyCoreVisitor, Post.__table__)
+# names that are not fields of the model / table but attributes of the object the lookup is made on
+NAMES = ["metadata", "registry", "__tablename__", "__table__", "keys", "values", "items", "get", "_index", "nosuch"]
+bad = []
+for n in NAMES:
+    t = ODataParser().parse(ODataLexer().tokenize(n + " eq 1"))
+    try:
+        r = V(arg).visit(t)
+        bad.append([n, "accepted: " + str(r)[:60]])
+    except exceptions.InvalidFieldException:
+        pass
+    except Exception as ex:
+        bad.append([n, "leaked " + type(ex).__name__])
+print(json.dumps({"violates": bool(bad), "problems": bad}))
+'''
+
+
+def lookup_script(bkey):
+    return LOOKUP_REPLAY.replace("__BKEY__", repr(bkey))
+
+
+def run_lookup(facts, bkey):
+    """`unknown fields on SQLAlchemy are reported as InvalidFieldException`: the identifier must be resolved by a KEYED lookup in the
+    column collection of the table / mapper (a miss is then the refusal), not by attribute access on an object that has attributes
+    of its own (`keys`, `metadata`, `__tablename__`, ...)."""
+    import time
+    from vc.propkit import explore, src_of
+    from vc.speclib import fresh_node
+    from vc.symexec import FuncRef, Sym
+    t0 = time.time()
+    c = Q.build(facts)
+    E = c["E"]
+    cls = O.BACKENDS[bkey]
+    O.install(c, bkey)
+    m = facts.classes[cls]["members"]["visit"]
+    handler = facts.classes[cls]["members"]["visit_Identifier"]
+
+    def runner(path):
+        nd, consts = fresh_node(E, path, "Identifier")
+        path.assume(c["shape"](nd))
+        self_obj = O.make_self(c, bkey)
+        return E.run_function(path, FuncRef(m, defcls=m["definer"]), [self_obj, Sym(nd)], self_val=self_obj)
+    out = []
+    name = f"C12:{bkey}:{handler['qualname']}[Identifier]:post.lookup"
+    known = any(f["id"] == "C12-sa-orm-class-attribute-as-field" for f in KNOWN)
+    n = 0
+    for i, (path, oc) in enumerate(explore(E, runner)):
+        if oc[0] == "unsupported":
+            out.append({"name": name, "clause": "unsupported", "status": "undecided", "seconds": 0.0, "reason": oc[1], "source": src_of(handler), "path": i})
+            continue
+        if oc[0] != "return":
+            continue
+        n += 1
+        got = repr(oc[1])
+        if bkey == "sa_orm" and known and got == LOOKUP_KNOWN_ORM:
+            out.append({"name": name, "clause": "excluded", "status": "discharged", "seconds": 0.0, "backend": "finite-check",
+                        "reason": "recorded finding C12-sa-orm-class-attribute-as-field: getattr on the model class"})
+            continue
+        want = LOOKUP_WANT.get(bkey, "a keyed lookup in the mapper's column collection")
+        ok = got == want
+        r = {"name": name, "clause": "post.lookup", "status": "discharged" if ok else "refuted", "seconds": time.time() - t0,
+             "backend": "pyvc (term comparison)", "source": src_of(handler), "path": i, "orm": bkey,
+             "reason": "the field is resolved by key in the column collection" if ok else f"the field is resolved by {got[:160]}; prescribed: {want}"}
+        if not ok:
+            r["solver_output"] = r["reason"]
+            r["native_script"] = lookup_script(bkey)
+            r["bound"] = "names that are attributes of the looked-up object, not fields"
+        out.append(r)
+    if n == 0:
+        out.append({"name": name, "clause": "cover", "status": "undecided", "seconds": 0.0, "selfcheck_failed": True, "reason": "no returning path"})
+    return out
+
+
 def families(facts):
     fams = []
     for d in TEXT:
@@ -48,7 +141,7 @@ def families(facts):
         for fn, (lo, hi) in O.ARITY_TABLE.items():
             for n in range(lo, hi + 1):
                 fams.append(f"ormcall[{b}][{fn}/{n}]")
-    return fams + ["canary"]
+    return fams + ["lookup[sa_core]", "lookup[sa_orm]", "canary"]
 
 
 def known_text(dkey, kind, clause, info):
@@ -69,6 +162,8 @@ def run_family(facts, fam, tier):
     if fam == "canary":
         return [{"name": "C12:canary:none-is-not-a-translation", "clause": "canary", "seconds": 0.0, "canary": True,
                  "status": "discharged", "reason": "a handler returning None fails post.wf by construction (checked on the Time handler of the SQL dialects: recorded finding)"}]
+    if fam.startswith("lookup["):
+        return run_lookup(facts, fam[len("lookup["):-1])
     c = Q.build(facts)
     U, PV = c["U"], c["PV"]
     if fam.startswith("text["):
@@ -136,6 +231,8 @@ def text_foreign_call(c, facts, dkey, timeout):
 
 
 def replay_spec(facts, r):
+    if r.get("clause") == "post.lookup" and r.get("native_script"):
+        return {"native_script": r["native_script"], "input_text": r.get("bound"), "required": "InvalidFieldException for every name that is not a field"}
     if r.get("backend_kind") == "orm":
         return O.replay_spec(facts, r)
     return C09.replay_spec(facts, r)
